@@ -218,18 +218,36 @@ def _table(ctx, model):
                    f"d/dp {fname}(p) = {want}" if ok else
                    f"the rule for math.{fname} gives {got}, the derivative is "
                    f"{want}", {"rule": ast.unparse(ps.items[-1][1])})
+    # gates, decided by substituting each setting for the parameter (so that
+    # any spelling of the test -- in / not in / == / !=, either branch order --
+    # reads the same)
+    def fname_of(ps):
+        fn_ = None
+        for _, pol, v in ps.conds:
+            if pol and isinstance(v, tuple) and v[0] == "boolop" and \
+                    v[1] == "And":
+                for c in v[2]:
+                    if c[0] == "compare" and c[1] == ("Eq",) and \
+                            c[2] == ("param", "func"):
+                        fn_ = _fn_name(c[3][0])
+        return fn_
+
+    by_setting = {}
+    for setting in ("none", "continuous", "discontinuous"):
+        for ps in summarize(fn, plain=True, assume={
+                "allowed_nonsmoothness": ("const", setting)}):
+            f_ = fname_of(ps)
+            if f_ is not None:
+                by_setting.setdefault((f_, setting), set()).add(ps.term)
     for table, kind in ((NONSMOOTH, "non-smooth"), (DISCONTINUOUS,
                                                     "discontinuous")):
         for fname, allowed in table.items():
-            rows = seen.get(fname, [])
-            ret = [r for r in rows if r[0].term == "return"]
-            rai = [r for r in rows if r[0].term == "raise"]
-            ok = bool(ret) and bool(rai)
-            for ps, gate, arity in ret:
-                ok = ok and gate is not None and gate[1] is True and \
-                    set(gate[0]) <= set(allowed)
-            for ps, gate, arity in rai:
-                ok = ok and gate is not None and gate[1] is False
+            ok = True
+            for setting in ("none", "continuous", "discontinuous"):
+                terms = by_setting.get((fname, setting), set())
+                want = {"return"} if setting in allowed else {"raise"}
+                if terms != want:
+                    ok = False
             ctx.ob(f"P/table/{fname}/gated", ok, loc,
                    f"{fname} ({kind}) is differentiated only under "
                    f"allowed_nonsmoothness in {list(allowed)}, else raises"
